@@ -155,12 +155,12 @@ ALPHABET = [
     C('configure -Dsub:c=b', 'configure', [('sub:c', 'b')]),
     C('configure -Dsub:c=c', 'configure', [('sub:c', 'c')], tiers='t'),
     C('configure -Dsub:i=7', 'configure', [('sub:i', '7')], tiers='t'),
-    C('configure -Usub:c', 'configure', U=['sub:c'], tiers='t'),
+    C('configure -Usub:c', 'configure', U=['sub:c']),
     C('configure -Dsub:warning_level=3', 'configure', [('sub:warning_level', '3')]),
     C('configure -Dsub:default_library=static', 'configure', [('sub:default_library', 'static')], tiers='t'),
     # colliding values: an override equal to the value it overrides (dropping it later changes nothing *now*)
     C('configure -Dsub:warning_level=3 -Dwarning_level=3', 'configure', [('sub:warning_level', '3'), ('warning_level', '3')]),
-    C('configure -Dsub:s=t1 -Ds=t1', 'configure', [('sub:s', 't1'), ('s', 't1')]),
+    C('configure -Dsub:s=t1 -Ds=t1', 'configure', [('sub:s', 't1'), ('s', 't1')], tiers='t'),
     # the late subproject: enabled by an option; its own option may have been given before it was ever configured
     C('configure -Duse2=true', 'configure', [('use2', 'true')]),
     C('configure -Duse2=false', 'configure', [('use2', 'false')], tiers='t'),
@@ -168,7 +168,7 @@ ALPHABET = [
     C('configure -Dsub2:o=p2', 'configure', [('sub2:o', 'p2')]),
     C('setup --reconfigure -Dsub2:o=p3', 'reconfigure', [('sub2:o', 'p3')], tiers='t'),
     C('configure -Usub:warning_level', 'configure', U=['sub:warning_level']),
-    C('configure -Usub:s', 'configure', U=['sub:s']),
+    C('configure -Usub:s', 'configure', U=['sub:s'], tiers='t'),      # (quick: -Usub:c, the yielding option that also has a choice list)
     C('setup -Ds=s2', 'setup', [('s', 's2')], tiers='t'),
     C('setup --reconfigure', 'reconfigure'),
     C('setup --reconfigure -Dc=c', 'reconfigure', [('c', 'c')]),
@@ -210,7 +210,9 @@ CMD = {c['name']: c for c in ALPHABET}
 # Roots: the fresh `meson setup` every history starts from.  The second one gives a value to an option of the subproject
 # that is not configured yet (meson accepts that only on the first setup: "options for subprojects that were not used").
 # A root other than the plain one is written as the first element of a history.
-ROOTS = [C('ROOT setup', 'root'), C('ROOT setup -Dsub2:o=p1', 'root', [('sub2:o', 'p1')])]
+# The third one gives a yielding option of the subproject a value of its own right at the first setup.
+ROOTS = [C('ROOT setup', 'root'), C('ROOT setup -Dsub2:o=p1', 'root', [('sub2:o', 'p1')]),
+         C('ROOT setup -Dsub:c=b', 'root', [('sub:c', 'b')])]
 CMD.update({c['name']: c for c in ROOTS})
 
 
@@ -948,7 +950,7 @@ def main():
         jobs = 1
         ck.assume('mount namespaces unavailable: transitions executed serially at the fixed path')
     depth = ck.q(3, 5)
-    max_expand = ck.q(176, 1800)            # count-based cap on expanded states (deterministic); frontier reported
+    max_expand = ck.q(180, 1800)            # count-based cap on expanded states (deterministic); frontier reported
     tier_letter = 't' if ck.thorough else 'q'
     alphabet = [c['name'] for c in ALPHABET if tier_letter in c['tiers']]
 
